@@ -67,11 +67,11 @@ def all_row_exprs(n):
             if len(range(*slice(a, b).indices(n))) >= 1:
                 k += 1
                 yield {'t': 'slice', 'a': a, 'b': b, 'step': 1 if k % 3 == 0 else None}
-    kinds = ['list', 'int64', 'int32', 'uint32']
+    kinds = ['list', 'int64', 'int32', 'uint32', 'uint64']
     for r in range(1, n + 1):
         for sub in itertools.combinations(range(n), r):
             k += 1
-            yield {'t': 'list', 'v': list(sub), 'as': kinds[k % 4]}
+            yield {'t': 'list', 'v': list(sub), 'as': kinds[k % 5]}
 
 
 def all_col_selectors(nch):
@@ -147,7 +147,8 @@ def row_expr(draw, n, bounds=(), allow_list=True):
     size = draw(st.integers(1, min(n, 8)))
     v = sorted(draw(st.lists(st.sampled_from([h for h in hot if h < n] or [0]) |
                              st.integers(0, n - 1), min_size=size, max_size=size, unique=True)))
-    return {'t': 'list', 'v': v, 'as': draw(st.sampled_from(['list', 'int64', 'int32', 'uint32']))}
+    return {'t': 'list', 'v': v, 'as': draw(st.sampled_from(['list', 'int64', 'int32', 'uint32',
+                                                              'uint64']))}
 
 
 @st.composite
